@@ -59,6 +59,16 @@ def run_case(ns, mon, case):
     g = gen.upstream(rng, out.shape, "normal") if out.shape else np.array(float(rng.uniform(0.5, 2.0)))
     try:
         g_t = ns.Tensor(np.array(g, dtype=np.float64))           # one upstream-gradient tensor, handed to every sweep over this graph
+        if case["pseed"] % 4 == 1:
+            # a first attempt with a seed of the wrong shape is refused; the graph is then differentiated as if nothing had happened
+            try:
+                out.backward(ns.Tensor(np.ones((2,) + tuple(out.shape) if out.shape else (3,))))
+                counters["wrong_shape_seed_accepted"] = 1
+                mon.drain()
+                return {"counters": counters}
+            except Exception:
+                counters["refused_backward_first"] = 1
+            mon.drain()
         out.backward(g_t)
     except Exception as e:
         import traceback
